@@ -33,17 +33,28 @@ GENE_TYPES = ("gene", "mRNA", "CDS", "ncRNA", "tRNA", "rRNA", "misc_RNA", "tmRNA
 # ---------------------------------------------------------------------------------------------------------
 # identifiers
 def ids_of(gene, i):
-    """source identifiers of gene number i of a record"""
-    full = gene.get("ids", 0) == 0
+    """source identifiers of gene number i of a record.  Identifier menu ``ids``:
+    0 all identifiers; 1 own locus tag + gene id, no symbols, no protein id;
+    2 NO locus tag, symbol + gene id; 3 NO locus tag, symbol only; 4 NO locus tag, gene id only; 5 none of the three.
+    ``locus_tag`` is the source value; ``tag_written`` is what the file must carry on the gene row AND on every child
+    row: the source tag, else the documented fallback (symbol, else gene id), else nothing."""
+    m = gene.get("ids", 0)
     coding = gene["kind"] == "coding"
-    return dict(
-        gene_id=f"GID{i}",
-        gene_symbol=f"sym{i}" if full else None,
-        locus_tag=LOCUS[i],
+    has_sym = m in (0, 2, 3)
+    has_gid = m in (0, 1, 2, 4)
+    has_tag = m in (0, 1)
+    rich = m in (0, 2, 3)
+    d = dict(
+        gene_id=f"GID{i}" if has_gid else None,
+        gene_symbol=f"sym{i}" if has_sym else None,
+        locus_tag=LOCUS[i] if has_tag else None,
         transcript_id=f"TX{i}",
-        transcript_symbol=f"sym{i}" if full else None,
-        protein_id=f"PROT{i}" if (full and coding) else None,
+        transcript_symbol=f"sym{i}" if has_sym else None,
+        protein_id=f"PROT{i}" if (rich and coding) else None,
     )
+    d["symbol_written"] = d["gene_symbol"] or d["gene_id"]  # documented: "do our best to ensure there is a /gene tag"
+    d["tag_written"] = d["locus_tag"] or d["symbol_written"]
+    return d
 
 
 def fc_ids_of(i):
@@ -99,30 +110,33 @@ def expected_rows(rec, flavour, upd):
     for i, g in enumerate(rec["genes"]):
         r = resolve(g, genome)
         ids = ids_of(g, i)
-        sym = ids["gene_symbol"] or ids["gene_id"]  # documented: "do our best to ensure there is a /gene tag"
-        gq = {"gene": sym, "gene_id": ids["gene_id"], "locus_tag": ids["locus_tag"]}
-        rows.append(dict(type="gene", parts=parts([r["span"]], r["strand"]), q=gq, translation=None, gene=i))
-        tq = {"gene": sym, "locus_tag": ids["locus_tag"], "transcript_id": ids["transcript_id"]}
+        sym, tag = ids["symbol_written"], ids["tag_written"]
+        gq = {"gene": sym, "gene_id": ids["gene_id"]}
+        gq = {k: v for k, v in gq.items() if v is not None}
+        rows.append(dict(type="gene", parts=parts([r["span"]], r["strand"]), q=gq, lt=tag, translation=None, gene=i))
+        tq = {"transcript_id": ids["transcript_id"]}
+        if sym is not None:
+            tq["gene"] = sym
         if ids["transcript_symbol"]:
             tq["transcript_name"] = ids["transcript_symbol"]
         if r["kind"] == "coding":
             if flavour == "EUKARYOTIC":
-                rows.append(dict(type="mRNA", parts=parts(r["exons"], r["strand"]), q=dict(tq), translation=None, gene=i))
+                rows.append(dict(type="mRNA", parts=parts(r["exons"], r["strand"]), q=dict(tq), lt=tag, translation=None, gene=i))
             cq = dict(tq)
             if ids["protein_id"]:
                 cq["protein_id"] = ids["protein_id"]
-            rows.append(dict(type="CDS", parts=parts(r["cds"], r["strand"]), q=cq,
+            rows.append(dict(type="CDS", parts=parts(r["cds"], r["strand"]), q=cq, lt=tag,
                              translation=expected_protein(r, flavour) if upd else None, gene=i, f0=r["f0"]))
         else:
-            rows.append(dict(type=r["kind"], parts=parts(r["exons"], r["strand"]), q=dict(tq), translation=None, gene=i))
+            rows.append(dict(type=r["kind"], parts=parts(r["exons"], r["strand"]), q=dict(tq), lt=tag, translation=None, gene=i))
     for j, fc in enumerate(rec.get("fcs", [])):
         ids = fc_ids_of(j)
         bl = sorted(tuple(b) for b in fc["blocks"])
         rows.append(dict(type="misc_feature", parts=parts([(bl[0][0], bl[-1][1])], fc["strand"]),
-                         q={"locus_tag": ids["locus_tag"], "feature_collection_name": ids["feature_collection_name"],
-                            "feature_collection_id": ids["feature_collection_id"]}, translation=None, fc=j))
+                         q={"feature_collection_name": ids["feature_collection_name"],
+                            "feature_collection_id": ids["feature_collection_id"]}, lt=ids["locus_tag"], translation=None, fc=j))
         rows.append(dict(type="feat_interval", parts=parts(bl, fc["strand"]),
-                         q={"locus_tag": ids["locus_tag"], "feature_name": ids["feature_name"], "feature_id": ids["feature_id"]},
+                         q={"feature_name": ids["feature_name"], "feature_id": ids["feature_id"]}, lt=ids["locus_tag"],
                          translation=None, fc=j))
     return rows
 
@@ -138,8 +152,10 @@ def expected_models(rec, flavour):
         coding = r["kind"] == "coding"
         exons = r["exons"] if (flavour == "EUKARYOTIC" or not coding) else r["cds"]
         out.append(dict(
-            locus_tag=ids["locus_tag"], gene_id=ids["gene_id"],
-            gene_symbol=ids["gene_symbol"],  # None = unconstrained (writer substitutes the id)
+            locus_tag=ids["tag_written"],  # the source tag or its documented fallback (symbol, else gene id)
+            gene_id=ids["gene_id"],
+            gene_symbol=ids["gene_symbol"],  # None = the writer may substitute the gene id
+            key=ids["tag_written"] or "tx:" + ids["transcript_id"],
             strand=r["strand"],
             exons=[list(b) for b in exons],
             cds=[list(b) for b in r["cds"]] if coding else None,
@@ -156,22 +172,35 @@ def frames_for(cds_blocks, strand, f0):
     return F.consistent_frames_plus_order(tuple(tuple(b) for b in cds_blocks), strand, f0)
 
 
-def position_sorted(rows):
-    """The premise of the mode-agreement clause, decided on the rows as an independent reader lists them: gene-type
-    rows appear in non-decreasing start order and rows sharing a start belong to one locus tag (so position alone
-    fixes the order); locus tags of gene rows are unique."""
+def _tag(r):
+    return (r["q"].get("locus_tag") or [None])[0]
+
+
+def rows_position_sorted(rows):
+    """gene-type rows, in file order, have non-decreasing starts, and rows that share a start lie in one gene block
+    (a block = a `gene` row and the rows up to the next `gene` row), so that position alone fixes the order."""
     seq = []
+    block = -1
     for r in rows:
         if r["type"] in GENE_TYPES:
-            seq.append((min(p[0] for p in r["parts"]), (r["q"].get("locus_tag") or [None])[0]))
+            if r["type"] == "gene":
+                block += 1
+            seq.append((min(p[0] for p in r["parts"]), block))
     for a, b in zip(seq, seq[1:]):
-        if b[0] < a[0]:
+        if b[0] < a[0] or (b[0] == a[0] and a[1] != b[1]):
             return False
-        if b[0] == a[0] and a[1] != b[1]:
-            return False
-    # a later gene must not start before an earlier gene's last row begins (guaranteed by the above); unique tags:
-    tags = [(r["q"].get("locus_tag") or [None])[0] for r in rows if r["type"] == "gene"]
-    return len(tags) == len(set(tags)) and None not in tags
+    return True
+
+
+def gene_tags_unique(rows):
+    """every `gene` row carries a locus tag and no tag is used by two `gene` rows"""
+    tags = [_tag(r) for r in rows if r["type"] == "gene"]
+    return None not in tags and len(tags) == len(set(tags))
+
+
+def position_sorted(rows):
+    """premise of the mode-agreement clause: position-sorted with unique locus tags"""
+    return rows_position_sorted(rows) and gene_tags_unique(rows)
 
 
 # ---------------------------------------------------------------------------------------------------------
@@ -244,6 +273,18 @@ def multi_gene_records(tier):
             for foff in (0, 10, 25):
                 out.append({"genome": "A", "genes": [place(m, 12)],
                             "fcs": [dict(blocks=[[s + foff, e + foff] for s, e in fc["blocks"]], strand=fc["strand"])]})
+    # genes WITHOUT a locus tag of their own (symbol + id / symbol only / gene id only / no identifier at all): alone ...
+    for m in MENU:
+        for ids in (2, 3, 4, 5):
+            out.append({"genome": "A", "genes": [place(m, 3, ids=ids)], "fcs": []})
+    # ... and mixed with tagged genes and with each other, disjoint and overlapping
+    sub = [MENU[i] for i in (0, 1, 4, 5)]
+    for a, b in itertools.product(sub, repeat=2):
+        for ia, ib in ((2, 0), (0, 3), (4, 0), (0, 5), (5, 5), (3, 4), (2, 5)):
+            for offs in (ARR2[0], ARR2[2]):
+                out.append({"genome": "A", "genes": [place(a, offs[0], ids=ia), place(b, offs[1], ids=ib)], "fcs": []})
+    for tri, idm in (((0, 4, 1), (0, 2, 5)), ((5, 2, 4), (3, 0, 4)), ((1, 1, 6), (4, 5, 1)), ((2, 7, 3), (5, 0, 2))):
+        out.append({"genome": "A", "genes": [place(MENU[t], o, ids=i) for t, o, i in zip(tri, (1, 14, 27), idm)], "fcs": []})
     for a, b in itertools.product(range(len(MENU)), repeat=2):
         for offs in ARR2:
             out.append({"genome": "A", "genes": [place(MENU[a], offs[0]), place(MENU[b], offs[1])], "fcs": []})
